@@ -47,6 +47,15 @@ CLAIMED["C14"] = dict(
    note="The model stores a word when the write command executes; command-error and busy bits follow the ESC datasheet.",
    technique="deterministic simulation: real EEPROM write path over a simulated SII with injected command errors/busy, array-diff oracle", section="DESIGN.md §4 C14")
 
+CLAIMED["C07"] = dict(
+   text="0..8 simulated devices with drawn PDO sets are brought to OP through the real init/into_op (DC variant through into_pre_op_pdi + configure_dc_sync), with frame sizes from the smallest a session works with up to 1514; 1..5 cycles of tx_rx / tx_rx_sync_system_time / tx_rx_dc with fresh outputs and inputs. Oracle over the recorded wire log and the model: LRW datagrams tile the group window without gap/overlap and fit the frame size, exactly one leading FRMW to the reference clock whose answer is the reported time, inputs()/outputs() against the devices' memory and what was written, working counter sum, state list in group order, frame count against an independent greedy packer, termination within the step budget (lock contention is reported as a deadlock, not spun on).",
+   note="MAX_PDI = 4096, MAX_SUBDEVICES = 16; fault-free wire and devices; frames below 44 bytes cannot complete init and are not drawn.",
+   technique="deterministic simulation: real cycle code against the segment reference model (FMMU/SM/logical memory) under virtual time, seeded configurations, wire-log oracle", section="DESIGN.md §4 C07")
+CLAIMED["C08"] = dict(
+   text="1..6 simulated devices with random PDO sets (1..3 process data sync managers per direction, adjacent or not, CoE or EEPROM configuration path, FMMU_EX, oversampling) in 1..3 groups; structural oracle (window lengths from the description, disjointness, inputs before outputs, SM registers, every sync manager byte mapped by an FMMU of the right direction, global logical disjointness) and behavioural oracle (distinct pattern per device, one cycle, each device's output RAM holds its own pattern, no other RAM byte of any device changed, inputs() shows the device's own input RAM); devices refuse SAFE-OP on a sync manager configuration other than their own. Two open known findings (FMMU choice for non-adjacent sync managers on the CoE path; FMMU chosen by sync manager index on the EEPROM path) are reported as KNOWN-FINDING and quarantined in 60% of runs.",
+   note="A device implements exactly the FMMUs its EEPROM lists in tight configurations; bit-granular FMMUs are modelled but never programmed by ethercrab.",
+   technique="deterministic simulation: real configuration + cycle code against the segment reference model, seeded device populations, structural + behavioural memory oracle", section="DESIGN.md §4 C08")
+
 NA = {
  "C19": "pure function of its input (a proc-macro and the code it generates): no schedule, clock, fault, I/O or second party for a simulator to control; input generation alone is not simulation (DESIGN.md §4 C19)",
 }
